@@ -70,7 +70,8 @@ replay)
     VERIF_REPO="$M" "$VERIF/check" "$PROP" --tier quick > "$M.log" 2>&1; RC=$?
     if [ $RC != 1 ]; then echo "$ID ($PROP): not caught (exit $RC)"; FAIL=1; rm -rf "$M" "$M.log"; continue; fi
     N=0; OK=0
-    for R in $(grep -o 'replay=[^ ]*' "$M.log" | cut -d= -f2 | head -3); do
+    # (witness files of fixed findings that a change re-opens are recorded on older trees: not expected to be exact)
+    for R in $(grep -o 'replay=[^ ]*' "$M.log" | cut -d= -f2 | grep '/replays/' | head -3); do
       N=$((N+1))
       if VERIF_REPO="$M" "$VERIF/check" "$PROP" --replay "$R" 2>&1 | grep -q "^reproduced: .*event-log-identical=true"; then OK=$((OK+1)); fi
     done
